@@ -165,7 +165,7 @@ def _correct(case, res, fact, thr):
     if res[2] is None:
         return False
     v = _value(case, res, fact)
-    if case["mode"] != "center" and abs(v - thr) < EPS:
+    if case["mode"] != "center" and abs(v - thr) < EPS and not (v == 0.0 and thr == 0.0):      # IoU exactly 0 (no overlap) against the threshold 0: decided
         raise Undecided()
     b = v < thr if case["mode"] in DIST_MODES else v > thr
     if res[3] == "FP":
@@ -382,6 +382,8 @@ TARGET_SETS = [["CAR"], ["PEDESTRIAN"], ["CAR", "PEDESTRIAN"], ["CAR", "BICYCLE"
 
 
 def _thr(mode, rng):
+    if rng.random() < 0.12:
+        return 0.0            # falsy but a threshold: no distance is below it (every result of the label is an FP), every overlap is above it
     if mode in DIST_MODES:
         return rng.choice([0.5, 1.0, 1.5, 2.0])
     return rng.choice([0.125, 0.25, 0.5, 0.75])
@@ -460,9 +462,13 @@ def gen_random(tier, rng):
         nf = rng.randint(2, 40 if tier == "quick" else 60)
         mr = rng.randint(0, 10 if tier == "quick" else 12)
         frames, ngt = gen_tracks(rng, nf, mr, pool, mode, unique=rng.random() < 0.8)
+        if i % 3 == 1:
+            # frames without any result in the middle of a busy history (the tracker / the filter delivers nothing): the next frame's
+            # predecessor is the EMPTY frame, not the last non-empty one
+            frames = [[] if (0 < k < len(frames) - 1 and rng.random() < 0.2) else f for k, f in enumerate(frames)]
         thr = [_thr(mode, rng) for _ in labels]
         if dim == "2d" and mode == "center":
-            thr = [rng.choice([4.0, 5.0, 8.0, 12.0]) for _ in labels]        # pixels: offsets 0-4 near, 8-24 far, 4 and 8 exactly on a threshold
+            thr = [rng.choice([4.0, 5.0, 8.0, 12.0, 0.0]) for _ in labels]        # pixels: offsets 0-4 near, 8-24 far, 4 and 8 exactly on a threshold
         num_gt = sum(ngt.get(l, 0) for l in labels) if rng.random() < 0.9 else 0
         out.append(_case("random-long" + ("-2d" if dim == "2d" else ""), mode, [_entry(labels, thr, num_gt, frames)], policy=policy,
                          ren=(rng.choice([1, 2, 3, 7]), rng.randint(0, 9)), dim=dim))
@@ -498,6 +504,13 @@ def gen_boundary(tier, rng):
             for thr in {v, min(1.0, v + 0.125), max(0.0, v - 0.125)}:
                 out.append(_case("boundary-threshold", mode,
                                  [_entry([C], [thr], 2, [[[0, C, 0, C, off]], [[0, C, 0, C, off]], [[1, C, 0, C, off]]])]))
+    # a threshold of exactly 0 (falsy, but a threshold): distances are never below it -- every result of the label is an FP, nothing is
+    # carried over; any overlap is above it -- the pairing is a TP and is carried over; IoU exactly 0 (no overlap) is not above it
+    for mode, offs in (("center", (0, 4)), ("plane", (0, 4)), ("iou2d", (0, 6, 24)), ("iou3d", (0, 6, 24))):
+        for off in offs:
+            for lab, thrs in (([C], [0.0]), (["PEDESTRIAN", C], [1.0 if mode in DIST_MODES else 0.5, 0.0])):
+                out.append(_case("boundary-threshold-0", mode,
+                                 [_entry(lab, thrs, 2, [[[0, C, 0, C, off]], [[0, C, 0, C, off]], [], [[1, C, 0, C, off], [2, "PEDESTRIAN", 1, "PEDESTRIAN", 0]]])]))
     # degenerate histories
     one = [0, C, 0, C, 0]
     for frames in ([], [[]], [[one]], [[], []], [[], [one]], [[one], []], [[], [one], [], [one]], [[], [], [one], [one]]):
@@ -519,6 +532,10 @@ def gen_boundary(tier, rng):
         [[[1, C, 1, C, 0], [0, C, 0, C, 0]], [[0, C, 1, C, 0]]],      # two switch candidates (break on the first)
         [[[0, C, 1, C, 0], [0, C, 0, C, 0]], [[0, C, 0, C, 0]]],      # switch candidate before the same match
         [[[0, C, 0, C, 0], [0, C, 1, C, 0]], [[0, C, 0, C, 0]]],      # same match before the switch candidate
+        # ONE ground truth matched by two results of the previous frame, both within the threshold: the same pairing listed first / second
+        [[[0, C, 0, C, 0], [1, C, 0, C, 2]], [[0, C, 0, C, 0]], [[1, C, 0, C, 0]]],
+        [[[1, C, 0, C, 2], [0, C, 0, C, 0]], [[0, C, 0, C, 0]], [], [[0, C, 0, C, 0]]],
+        [[[1, C, 0, C, 2], [0, C, 0, C, 0], [2, C, 0, C, 1]], [[2, C, 0, C, 0], [0, C, 0, C, 3]]],
     ]
     for frames in specials:
         for labels, thrs in (([C], [1.0]), ([C, P], [1.0, 0.5]), ([P, C], [1.0, 2.0]), ([C, "FP"], [1.0, 1.0]), (["FP"], [1.0])):
@@ -639,6 +656,15 @@ class ClearCorr(Corr):
                 d["mota_clamped_to_0"] += (oo["MOTA"] == 0.0 and oo["tp"] - oo["fp"] - oo["id_switch"] < 0)
                 d["non_unique_frames"] += not all(_unique(f) for f in en["frames"])
                 d["multi_label"] += len(en["labels"]) > 1
+                fr = en["frames"]
+                d["threshold_exactly_0"] = d.get("threshold_exactly_0", 0) + (0 in en["thresholds"])
+                d["empty_frame_between_busy_frames"] = d.get("empty_frame_between_busy_frames", 0) + any(
+                    not fr[k] and any(fr[:k]) and any(fr[k + 1:]) for k in range(len(fr)))
+                two = False
+                for k in range(1, len(fr)):
+                    gs = [r[2] for r in fr[k - 1] if r[2] is not None]
+                    two = two or any(gs.count(r[2]) > 1 for r in fr[k] if r[2] is not None)
+                d["ground_truth_matched_by_two_previous_results"] = d.get("ground_truth_matched_by_two_previous_results", 0) + two
             for en, oo, fa in zip(c["clears"], o["clears"], o["facts"]):
                 d["prev_tp_reading_differs"] = d.get("prev_tp_reading_differs", 0) + (reading_differs(c, en, oo, fa) is not None)
                 try:
@@ -781,7 +807,7 @@ class C05(Prop):
     id = "C05"
     props_file = "Props/C05.v"
     # redundant tie (core.gen_tie): these decision functions, translated from the source on every run, equal the hand model for all inputs
-    gen_tie_theorems = ['GenTie_is_id_switched', 'GenTie_is_same_match', 'GenTie_is_result_correct_clear', 'GenTie_CLEAR__calculate_tp_fp', 'GenTie_CLEAR__calculate_score', 'GenTie_CLEAR___init__']
+    gen_tie_theorems = ['GenTie_is_id_switched', 'GenTie_is_same_match', 'GenTie_is_result_correct_clear', 'GenTie_CLEAR__calculate_tp_fp', 'GenTie_CLEAR__calculate_score', 'GenTie_CLEAR___init__', 'GenTieSrc_C05_clear_init_counts']
     gen_files = []
     design_ref = "DESIGN.md section 4, C05"
     technique = ("Rocq proof over an executable Gallina model of CLEAR.__init__/_calculate_tp_fp/_is_id_switched/_is_same_match/"
@@ -805,7 +831,9 @@ class C05(Prop):
                   "from the real objects through public getters; their geometric meaning is C06's business.")
     rule = ("histories of real DynamicObjectWithPerceptionResult objects; exhaustive frame pairs over ids {0,1} (<=2 results), sampled "
             "3-4 frame histories over ids {0,1,2} (<=3 results), threshold/label/degenerate boundaries, tracker shapes (perfect, one new id, "
-            "one swap), random long tracker histories (2-40/60 frames, 0-10/12 results); a quarter of the long / shape histories are built from "
+            "one swap), random long tracker histories (2-40/60 frames, 0-10/12 results; a third of them with frames blanked in the middle); thresholds of "
+            "exactly 0 (12 % of the per-label entries and a boundary block: no distance is below 0, every overlap is above 0, IoU exactly 0 is not), "
+            "one ground truth matched by two previous results that are both TP; a quarter of the long / shape histories are built from "
             "DynamicObject2D results with a ROI (centre distance in pixels with offsets exactly on the threshold, IoU 2D); "
             "non-trivial = at least one TP or FP counted; "
             "tracking glue: " + TC.RULE)
